@@ -27,14 +27,18 @@ RESET = b"<reset>"       # the peer aborts the connection instead of replying: r
 
 
 class ScriptedPeer(object):
-    def __init__(self, replies):
+    def __init__(self, replies, delays=None):
         self.replies = list(replies)
+        self.delays = list(delays or [])     # seconds (virtual) the server takes before reply i
         self.log = []
         self.n = 0
+        self.delivered = 0
+        self.delivered_at_write = []
 
     # writer side
     def write(self, data):
         self.log.append(("W", bytes(data)))
+        self.delivered_at_write.append(self.delivered)
 
     async def drain(self):
         return None
@@ -50,6 +54,9 @@ class ScriptedPeer(object):
             i = self.n
             self.n += 1
             self.log.append(("R", i))
+            if i < len(self.delays) and self.delays[i]:
+                await asyncio.sleep(self.delays[i])          # a slow server
+            self.delivered += 1
             self.buf = self.replies[i] if i < len(self.replies) else b""
             if self.buf == RESET:
                 self.buf = b""
@@ -99,10 +106,13 @@ def run_two(lines_a, replies_a, lines_b, replies_b):
     return out, raised
 
 
-def run_sim(lines, replies):
+def run_sim(lines, replies, delays=None, want_peer=False):
     from senaite.astm import simulator
     loop = impl.ensure_loop()
-    peer = ScriptedPeer(replies)
+    own_loop = None
+    if delays and any(delays):
+        own_loop = loop = impl.VirtualLoop()         # asyncio's loop on a virtual clock: slow replies cost no real time
+    peer = ScriptedPeer(replies, delays)
 
     async def fake_open(address, port, *a, **kw):
         return peer, peer
@@ -116,8 +126,15 @@ def run_sim(lines, replies):
             raised = type(e).__name__
     finally:
         simulator.asyncio.open_connection = orig
+        if own_loop is not None:
+            try:
+                own_loop.close()
+            except Exception:
+                pass
     trace = " ".join(("W" + hexb(e[1])) if e[0] == "W" else ("R%d" % e[1] if e[0] == "R" else "r")
                      for e in peer.log if e[0] in "WRr")
+    if want_peer:
+        return trace, raised, peer
     return trace, raised
 
 
@@ -198,6 +215,30 @@ def run(ctx):
         if ml is not None and ml != "ok " + trace and RESET not in replies:
             s.disagree(case, "ok " + trace, ml)
 
+    # slow servers: a reply (to ENQ or to a line) that takes longer than any waiting time the sender may have; the next
+    # unit is still sent only after that reply has arrived
+    sl = Stream("slow-replies")
+    for _ in range(1500 if ctx.thorough else 200):
+        lines = gen_lines(r)
+        n_units = len([l for l in lines if l.strip(b"\r\n")]) + 1
+        replies = [b"\x06"] * (n_units + 1) if r.random() < 0.6 else [r.choice(REPLIES[:9] + [b"\x06"] * 6) for _ in range(n_units + 1)]
+        delays = [r.choice([0, 0, 0, 1, 14, 16, 20, 31, 61, 120]) for _ in range(n_units + 1)]
+        trace, raised, peer = run_sim(lines, replies, delays, want_peer=True)
+        case = {"lines": [hexb(l) for l in lines], "replies": [hexb(x) for x in replies], "reply_delays_s": delays}
+        sl.case(case, nontrivial=any(d > 15 for d in delays[:n_units]))
+        if raised:
+            sl.fail(dict(case, raised=raised), "send_message raised %s with a slow server" % raised, "slow/raises")
+            continue
+        late = [i for i, dcount in enumerate(peer.delivered_at_write) if dcount < i]
+        if late:
+            sl.fail(dict(case, trace=trace, unit=late[0]), "unit %d was sent when only %d replies had arrived (stop-and-wait: "
+                    "each unit only after the reply to the previous one)" % (late[0], peer.delivered_at_write[late[0]]),
+                    "slow/stop-and-wait")
+            continue
+        bad = oracle(lines, replies, trace)
+        if bad:
+            sl.fail(dict(case, trace=trace), bad[1], "slow/" + bad[0])
+
     # two files under way at the same time to the same server: each transfer is judged on its own
     c2 = Stream("concurrent-transfers")
     for _ in range(1500 if ctx.thorough else 200):
@@ -214,7 +255,7 @@ def run(ctx):
                 c2.fail(dict(case, transfer=which, trace=tr), "transfer %s while the other was under way: %s" % (which, bad[1]),
                         "concurrent/" + bad[0])
                 break
-    return [s, c2]
+    return [s, sl, c2]
 
 
 def search(ctx, disagreements):
@@ -237,4 +278,4 @@ def replay(payload):
     trace, raised = run_sim(lines, replies)
     bad = oracle(lines, replies, trace)
     print("trace=%s raised=%s verdict=%s" % (trace, raised, bad))
-    return 1 if bad or raised else 0
+    return 1 if bad or (raised and RESET not in replies) else 0
